@@ -80,7 +80,7 @@ open JsightVerif.Model.Build
 theorem C19_expanded_not_banned (roots : List DT) (rootFile : Bytes) (banned : List Kind)
     (content : Bytes → Bytes) (b : Built) (h : build roots rootFile banned content = .ok b) :
     Tree.allList (notBanned banned) b.expanded = true := by
-  obtain ⟨_, _, _, _, tags, enums, s, _, _, _, hadd, _⟩ := build_stages roots rootFile banned content b h
+  obtain ⟨_, _, _, _, tags, enums, s, _, _, _, _, hadd, _⟩ := build_stages roots rootFile banned content b h
   exact (addList_banned content b.expanded [] b.expanded [] _ s hadd).2
 
 end Tied
